@@ -800,25 +800,35 @@ fn c13_run(steps: &[Step], phc_cfg: bool, dir: &std::path::Path) -> Result<Vec<(
 /// Run the steps through the real polling loop; per step: the messages sent to the writer thread
 /// and the class of message the reference poller expects.
 fn poller_run(steps: &[Step], phc_cfg: bool, dir: &std::path::Path) -> Result<Vec<(Vec<Message>, String)>, String> {
-    let good = dir.join("phc_ok");
-    let _ = std::fs::write(&good, "12345\n");
-    let bad = dir.join("phc_missing");
+    // one invocation of the real polling loop for the whole sequence (PollerLife::run_lifetime): what the loop
+    // keeps in its own variables between polls is kept. The PHC error bound is a sysfs-like file (fixed
+    // metadata) that is there or not, readable or not, from one poll to the next.
+    let phc_file = dir.join("phc_error_bound");
+    let _ = std::fs::remove_file(&phc_file);
     let m0 = 5000 * S;
     vclock::arm(VClock { real_ns: R0, mono_ns: m0, auto_advance_ns: 0, fail_errno: 0, fail_clock: -1 });
-    let r = std::panic::catch_unwind(|| {
+    let steps_v: Vec<Step> = steps.to_vec();
+    let r = std::panic::catch_unwind(std::panic::AssertUnwindSafe(|| {
+        struct St {
+            now: i128,
+            real_off: i128,
+            last_good: i128,
+            poll_start: i128,
+            expected: Vec<String>,
+        }
+        let st = std::rc::Rc::new(std::cell::RefCell::new(St { now: m0, real_off: 0, last_good: m0 - 5 * S, poll_start: m0, expected: vec![] }));
         let mut life = PollerLife::new();
-        let mut now = m0;
-        let mut last_good = m0 - 5 * S;
-        let mut out = vec![];
-        let mut real_off: i128 = 0;
-        for st in steps {
-            now += st.gap_ms as i128 * 1_000_000;
-            real_off += st.wall_step_ms as i128 * 1_000_000;
-            vclock::set_times(R0 + (now - m0) + real_off, now);
-            let poll_start = now;
+        let (s1, steps1, file1) = (st.clone(), steps_v.clone(), phc_file.clone());
+        let step = move |k: usize| -> Query {
+            let stp = steps1[k];
+            let mut s = s1.borrow_mut();
+            s.now += stp.gap_ms as i128 * 1_000_000;
+            s.real_off += stp.wall_step_ms as i128 * 1_000_000;
+            vclock::set_times(R0 + (s.now - m0) + s.real_off, s.now);
+            s.poll_start = s.now;
             let spec = |id: u32| TrackSpec { ref_id: id, leap: 0, ref_time_ns: R0, offset_bits: encode_float(0.001), delay_bits: encode_float(0.01), disp_bits: encode_float(0.01), interval_bits: encode_float(16.0) };
-            let real_now = R0 + (now - m0) + real_off;
-            let answer = match st.ans {
+            let real_now = R0 + (s.now - m0) + s.real_off;
+            let answer = match stp.ans {
                 Ans::TrackA => Answer::Wire(tracking_wire(&TrackSpec { ref_time_ns: real_now - S, ..spec(ID_A) }, 7)),
                 Ans::TrackB => Answer::Wire(tracking_wire(&TrackSpec { ref_time_ns: real_now - S, ..spec(ID_B) }, 7)),
                 Ans::Unsync => Answer::Wire(tracking_wire(&TrackSpec { leap: 3, ref_time_ns: real_now - S, ..spec(ID_B) }, 7)),
@@ -826,38 +836,58 @@ fn poller_run(steps: &[Step], phc_cfg: bool, dir: &std::path::Path) -> Result<Ve
                 Ans::Silent => Answer::Silent,
                 Ans::Other => Answer::Wire(null_reply_wire(7)),
             };
-            let phc = if phc_cfg { Some(PhcInfo { refid: ID_A, sysfs_error_bound_path: if st.phc_readable || st.phc_read_errno != 0 { good.clone() } else { bad.clone() } }) } else { None };
-            if !st.phc_readable && st.phc_read_errno != 0 {
-                crate::common::iofault::fail_reads_of("phc_ok", st.phc_read_errno);
+            if stp.phc_readable || stp.phc_read_errno != 0 {
+                // the device's error bound changes from one poll to the next
+                pipeline::write_sysfs_like(&file1, 12345 + 7 * k as i64);
+            } else {
+                let _ = std::fs::remove_file(&file1);
             }
-            let msgs = life.poll_once(phc, Query { answer, latency_ns: st.latency_ms as i128 * 1_000_000 });
+            if !stp.phc_readable && stp.phc_read_errno != 0 {
+                crate::common::iofault::fail_reads_of("phc_error_bound", stp.phc_read_errno);
+            }
+            Query { answer, latency_ns: stp.latency_ms as i128 * 1_000_000 }
+        };
+        let (s2, steps2) = (st.clone(), steps_v.clone());
+        let after = move |k: usize| {
+            let stp = steps2[k];
             crate::common::iofault::clear();
-            now += st.latency_ms as i128 * 1_000_000;
+            let mut s = s2.borrow_mut();
+            s.now += stp.latency_ms as i128 * 1_000_000;
             // reference poller
-            let as_of = format!("{}.{:09}", poll_start / S, poll_start % S);
-            let expected = match st.ans {
+            let as_of = format!("{}.{:09}", s.poll_start / S, s.poll_start % S);
+            let expected = match stp.ans {
                 Ans::TrackA | Ans::TrackB | Ans::Unsync | Ans::Stale => {
-                    last_good = now;
-                    let matches = phc_cfg && st.ans == Ans::TrackA;
-                    if matches && !st.phc_readable {
+                    s.last_good = s.now;
+                    let matches = phc_cfg && stp.ans == Ans::TrackA;
+                    if matches && !stp.phc_readable {
                         "phc-failed*".to_string()
                     } else {
-                        format!("data(phc={},as_of={as_of})", if matches { 12345 } else { 0 })
+                        format!("data(phc={},as_of={as_of})", if matches { 12345 + 7 * k as i64 } else { 0 })
                     }
                 }
                 Ans::Silent | Ans::Other => {
-                    if now - last_good < 5 * S {
+                    if s.now - s.last_good < 5 * S {
                         "silent-grace".to_string()
                     } else {
                         "silent".to_string()
                     }
                 }
             };
-            out.push((msgs, expected));
+            s.expected.push(expected);
+        };
+        let phc = if phc_cfg { Some(PhcInfo { refid: ID_A, sysfs_error_bound_path: phc_file.clone() }) } else { None };
+        let msgs = life.run_lifetime(phc, steps_v.len(), step, after);
+        crate::common::iofault::clear();
+        let exp = st.borrow().expected.clone();
+        let mut out: Vec<(Vec<Message>, String)> = msgs.into_iter().zip(exp).collect();
+        // a lifetime that ended early (the loop returned by itself) has fewer iterations than steps
+        while out.len() < steps_v.len() {
+            out.push((vec![], "poll did not take place".into()));
         }
         out
-    });
+    }));
     vclock::disarm();
+    crate::common::iofault::clear();
     r.map_err(panic_text)
 }
 
